@@ -25,8 +25,11 @@ C10OK(rec) ==
     /\ rec.out = "ok" => Sane(rec.post) /\ rec.post.nlive = (IF rec.post.base THEN 1 ELSE 0)
     /\ ContractOK(rec, ToSt(rec.pre), IF rec.out = "ok" THEN ToSt(rec.post) ELSE Fresh, rec.out, Norm(rec.ev),
                   IF rec.out = "ok" THEN rec.ret ELSE 0)
+\* C16: reserve quietly does nothing, growth aborts, nothing is written outside the storage
+C16OK(rec) == rec.fail => (C10OK(rec) /\ (rec.out = "ok" /\ HasFail(Norm(rec.ev)) => ToSt(rec.post) = ToSt(rec.pre)))
 VARIABLE i
 Judge(rec) ==
+    /\ (Level # 2 \/ C16OK(rec) \/ PrintT(<<"L2FAIL", "C16", rec.id>>))
     /\ (Level # 2 \/ C10OK(rec) \/ PrintT(<<"L2FAIL", "C10", rec.id>>))
     /\ (Level # 1 \/ StepOK(rec) \/ PrintT(<<"L1DRIFT", "str", rec.id>>))
 TInit == i = 1
